@@ -64,8 +64,12 @@ type Case struct {
 	Sizes   []int        `json:"sizes"`            // payload sizes
 	Alerts  int          `json:"alerts,omitempty"` // injected conditions that make endpoints alert, during the writes
 	Plain   int          `json:"plain,omitempty"`  // injected epoch-0 application_data records per side
-	Close   string       `json:"close,omitempty"`  // "", "C", "S": Close during the writes
-	Seed    int          `json:"seed"`
+	// PlainHS / PlainAt: an epoch-0 application_data record is slipped in front of the PlainAt-th datagram that side
+	// PlainHS ("C"/"S") sends, i.e. it reaches the peer in the middle of the handshake
+	PlainHS string `json:"plainhs,omitempty"`
+	PlainAt int    `json:"plainat,omitempty"`
+	Close   string `json:"close,omitempty"` // "", "C", "S": Close during the writes
+	Seed    int    `json:"seed"`
 	// Updates (1.3): key updates per side after establishment, before the writers start
 	Updates int `json:"updates,omitempty"`
 	// Import (1.2, no Close): after the writes that side is exported and resumed (ResumeWithOptions); the
@@ -174,7 +178,7 @@ func run(c Case, r *pbt.R) {
 			}
 		}
 		early := c.Early
-		if len(c.FC)+len(c.FS) > 0 {
+		if len(c.FC)+len(c.FS) > 0 || c.PlainHS != "" {
 			early = 0 // a Write parked on the handshake mutex would freeze the virtual clock the retransmissions need
 		}
 		for _, name := range []string{"C", "S"} {
@@ -183,8 +187,32 @@ func run(c Case, r *pbt.R) {
 				go writer(name, 2)
 			}
 		}
+		if c.PlainHS != "" {
+			pl := []byte("PLAINTEXT-INJECTED-during-handshake")
+			rec := append([]byte{23, 0xfe, 0xfd, 0, 0, 0, 0, 0, 0, 0, 119, 0, byte(len(pl))}, pl...)
+			p.Net.Mangle = func(ev *vnet.Event) [][]byte {
+				if ev.From == c.PlainHS && ev.Idx == c.PlainAt {
+					return [][]byte{rec, ev.Data}
+				}
+
+				return nil
+			}
+		}
 		p.Handshake(20 * time.Minute)
+		p.Net.Mangle = nil
 		established := p.C.OK() && p.S.OK()
+		if c.PlainHS != "" {
+			r.Class(fmt.Sprintf("plaintext-data-during-handshake:established=%v", established))
+			// whatever became of the handshake, a reader on either side must never see the record
+			if !established {
+				for _, sd := range []*scen.Side{p.C, p.S} {
+					if sd.OK() {
+						sd.StartReader()
+					}
+				}
+				scen.Settle()
+			}
+		}
 		if established {
 			p.C.StartReader()
 			p.S.StartReader()
@@ -473,6 +501,10 @@ func gen(t *rapid.T) Case {
 	c.Sizes = rapid.SliceOfN(rapid.SampledFrom([]int{16, 17, 31, 32, 64, 200, 1000, 2000}), 1, 4).Draw(t, "sizes")
 	c.Alerts = rapid.SampledFrom([]int{0, 0, 1, 2}).Draw(t, "alerts")
 	c.Plain = rapid.SampledFrom([]int{0, 1, 2}).Draw(t, "plain")
+	if rapid.IntRange(0, 3).Draw(t, "plainhsk") == 0 {
+		c.PlainHS = rapid.SampledFrom([]string{"C", "S"}).Draw(t, "plainhs")
+		c.PlainAt = rapid.IntRange(0, 4).Draw(t, "plainat")
+	}
 	c.Close = rapid.SampledFrom([]string{"", "", "C", "S"}).Draw(t, "close")
 	if c.Suite>>8 == 0x13 {
 		c.Updates = rapid.SampledFrom([]int{0, 0, 1, 2}).Draw(t, "updates")
@@ -489,7 +521,7 @@ func init() {
 		Rule: "session (20 suites x CID x hello-verify) with high-entropy payloads of 16..2000 bytes written from goroutines started before the handshake (0..3 per side) and after it, " +
 			"handshake retransmissions forced by a fault mask, injected alert conditions, injected unprotected application_data, Close during the writes; oracle: no payload and no Finished " +
 			"verify_data (recovered with the independent decoder) occurs verbatim in any emitted datagram; no application_data or Finished in an epoch-0 record; in 1.3 no handshake message other than " +
-			"the hellos in a plaintext record after the ServerHello and every unified-header record decrypts; injected epoch-0 application data is never read; the exporter output differs from " +
+			"the hellos in a plaintext record after the ServerHello and every unified-header record decrypts; injected epoch-0 application data (after the handshake, or slipped in front of a chosen handshake datagram) is never read; the exporter output differs from " +
 			"every public-only recomputation (PRF/HKDF keyed with nothing, zeros, or the hello randoms) and, for 1.2, equals RFC 5705 keyed with the master secret. " +
 			"non-trivial = established and (writes before establishment or protected handshake/alert records after it or Close or alerts); distinct = whole case",
 	})
